@@ -57,6 +57,8 @@ func propC18(c *Ctx) {
 	ruleNilCall(c, rn, fns)
 	c.extra["decode_path_functions"] = len(fns)
 	scanSinks(c, fns, sinkRules{assert: ra, alloc: rl, slice: rs, index: ri, panics: rp})
+	rdo := c.Rule("decoded-opaque", "no method is invoked on an object returned by DecodeObject on the decode path: it is asserted to the expected type, stored or returned (a gob container can hold nil elements that String / Equal / Copy dereference)", 8)
+	ruleDecodedOpaque(c, rdo, fns)
 }
 
 // ruleDecodeNonNil: success returns of DecodeObject carry a non-nil object.
